@@ -1748,6 +1748,129 @@ fn run_import(case: &Value) -> Value {
     }
 }
 
+
+// ---------------------------------------------------------------------------
+// audit_as kind: the pre-checks of an unlocked `cargo vet` (C08).
+
+fn run_audit_as(case: &Value) -> Value {
+    use crate::errors::{AuditAsError, CratePolicyError};
+    let metadata = build_metadata(&case["graph"]);
+    let cfg = mock_cfg(&metadata);
+    let st = &case["store"];
+    let store = match Store::mock_acquire(
+        st["config"].as_str().unwrap(),
+        st["audits"].as_str().unwrap(),
+        st["imports"].as_str().unwrap(),
+        mock_today(),
+        false,
+    ) {
+        Ok(s) => s,
+        Err(e) => {
+            let e = format!("{e:?}");
+            return json!({"status": "refused", "error_kind": error_kind(&e), "error": e});
+        }
+    };
+    let mut extra = Vec::new();
+    for (_, v, _) in &store.config.policy {
+        if let Some(v) = v {
+            extra.push(v.clone());
+        }
+    }
+    let it = make_interner(&metadata, &store, &extra);
+    let network = build_network(case);
+    let mut cache = crate::storage::Cache::acquire(&cfg).unwrap();
+    let sver = |v: &Option<VetVersion>| match v {
+        Some(v) => it.ver(v).to_string(),
+        None => "-".to_owned(),
+    };
+    let pe = |tag: &str, l: &Vec<crate::errors::PackageError>| {
+        let mut items: Vec<String> = l
+            .iter()
+            .map(|e| sp("e", vec![it.name(&e.package).to_string(), sver(&e.version)]))
+            .collect();
+        items.sort();
+        sp(tag, items)
+    };
+    let pol = crate::check_crate_policies(&cfg, &store);
+    let mut pol_s = vec![sp("needs", vec![]), sp("unused", vec![])];
+    if let Err(e) = &pol {
+        for x in &e.errors {
+            match x {
+                CratePolicyError::NeedsVersion(n) => pol_s[0] = pe("needs", &n.errors),
+                CratePolicyError::UnusedVersion(n) => pol_s[1] = pe("unused", &n.errors),
+            }
+        }
+    }
+    let aa = tokio::runtime::Handle::current().block_on(crate::check_audit_as_crates_io(
+        &cfg,
+        &store,
+        Some(&network),
+        &mut cache,
+    ));
+    let mut aa_s = vec![sp("unused", vec![]), sp("needs", vec![]), sp("shouldnt", vec![])];
+    if let Err(e) = &aa {
+        for x in &e.errors {
+            match x {
+                AuditAsError::UnusedAuditAs(n) => aa_s[0] = pe("unused", &n.errors),
+                AuditAsError::NeedsAuditAs(n) => aa_s[1] = pe("needs", &n.errors),
+                AuditAsError::ShouldntBeAuditAs(n) => aa_s[2] = pe("shouldnt", &n.errors),
+            }
+        }
+    }
+    // model input: per package the registry-match bit is computed with the real
+    // crates_io_info + consider_as_same
+    let pkgs: Vec<Value> = metadata
+        .packages
+        .iter()
+        .map(|p| {
+            let m = tokio::runtime::Handle::current()
+                .block_on(cache.crates_io_info(Some(&network), &p.name))
+                .is_ok_and(|entry| entry.metadata.consider_as_same(p));
+            c(
+                "Build_apkg",
+                vec![
+                    json!(it.name(&p.name)),
+                    json!(it.ver(&p.vet_version())),
+                    json!(p.is_crates_io()),
+                    opt(p
+                        .policy_entry(&store.config.policy)
+                        .and_then(|e| e.audit_as_crates_io)
+                        .map(|b| json!(b))),
+                    json!(m),
+                ],
+            )
+        })
+        .collect();
+    let pols: Vec<Value> = store
+        .config
+        .policy
+        .iter()
+        .map(|(n, v, e)| {
+            c(
+                "Build_apolicy",
+                vec![
+                    json!(it.name(n)),
+                    opt(v.map(|v| json!(it.ver(v)))),
+                    opt(e.audit_as_crates_io.map(|b| json!(b))),
+                    json!(!e.dependency_criteria.is_empty()),
+                ],
+            )
+        })
+        .collect();
+    let third: Vec<String> = metadata
+        .packages
+        .iter()
+        .map(|p| sb(p.is_third_party(&store.config.policy)))
+        .collect();
+    let obs = sp(
+        "c08",
+        vec![sp("third", third), sp("policy", pol_s), sp("auditas", aa_s)],
+    );
+    json!({"status": "ok", "model_input": {"pkgs": pkgs, "pols": pols},
+           "tables": {"names": it.names, "versions": it.versions.iter().map(|v| v.to_string()).collect::<Vec<_>>()},
+           "obs": obs})
+}
+
 fn panic_message(p: &Box<dyn std::any::Any + Send>) -> String {
     if let Some(s) = p.downcast_ref::<String>() {
         s.clone()
@@ -1766,6 +1889,7 @@ fn run_case(case: &Value) -> Value {
         "resolve" => run_resolve(case),
         "history" => run_history(case),
         "import" => run_import(case),
+        "audit_as" => run_audit_as(case),
         other => json!({"status": "harness_error", "error": format!("unknown kind {other}")}),
     }));
     let mut v = match r {
